@@ -24,7 +24,7 @@ pub fn gen(seed: u64, thorough: bool) {
     let mut rng = Rng::new(seed);
     let src = Sources::new();
     // ---- (a) k threads on one shared engine, random start stagger, mixed synthesize / generator use
-    let nsched = if thorough { 1500 } else { 60 };
+    let nsched = if thorough { 500 } else { 60 };
     for i in 0..nsched {
         let (factory, kind): (Box<dyn Fn() -> Engine>, &'static str) =
             if i % 3 == 0 { (Box::new(|| Engine::load(&[BUNDLED_VOICE]).expect("bundled voice")), "bundled") } else { src.any_engine_factory(&mut rng) };
